@@ -26,7 +26,7 @@ LEVEL_TEXT = ("Every member of finite structured families of 1-, 2-, 3- and 4-qu
               "one_/two_/multi_qubit_decomposition functions and their QubitUnitary rules and multiplied back out.")
 LEVEL_NOTE = ("Reference = numpy product of closed-form gate matrices (mc.refgates / mc.x_synth); 'every unitary' is reduced "
               "to these families (dense at special points, sparse elsewhere); equality tolerance 1e-8 (the implementation's own "
-              "np.allclose working precision); jax.jit / capture / qjit paths and differentiability are not explored.")
+              "np.allclose working precision); two-qubit synthesis is also run traced by jax.jit (axis 2q-jit); capture / qjit paths and differentiability are not explored.")
 DESIGN_REF = "5.3 C14"
 START = "fork"
 PARALLEL = True
@@ -123,11 +123,60 @@ def check_1q(spec):
 
 
 # ------------------------------------------------------------------------------------------------ 2 qubits
+_JIT = {}
+
+
+def _jit_synth(route):
+    """jax.jit-compiled `U -> matrix of the synthesised circuit` (compiled once per worker; under tracing the synthesis cannot branch on
+    the CNOT class of the input, so every input goes through the generic three-CNOT template)."""
+    if route not in _JIT:
+        import jax
+        import pennylane as qp
+
+        jax.config.update("jax_enable_x64", True)
+        names = []
+
+        def f(U):
+            if route == "jit-fn":
+                ops = qp.ops.two_qubit_decomposition(U, wires=[0, 1])
+            else:
+                ops = qp.QubitUnitary.compute_decomposition(U, [0, 1])
+            names[:] = [o.name for o in ops]
+            return qp.matrix(qp.tape.QuantumScript(ops), wire_order=[0, 1])
+
+        _JIT[route] = (jax.jit(f), names)
+    return _JIT[route]
+
+
+def check_2q_jit(spec):
+    import jax.numpy as jnp
+    from mc import x_synth as XS
+
+    np = _np()
+    U, cls = XS.build_2q(spec)
+    via = spec["via"]
+    fam = spec["core"][0]
+    fn, names = _jit_synth(via)
+    M = np.asarray(fn(jnp.asarray(U)))
+    nc = names.count("CNOT")
+    if nc > 3:
+        return bad(f"2q:more-than-3-cnots:{via}:{fam}", nc, "<= 3")
+    if not set(names) <= {"QubitUnitary", "CNOT", "RZ", "RY", "RX", "GlobalPhase"}:
+        return bad(f"2q:op-types:{via}", sorted(set(names)), ["QubitUnitary", "CNOT", "RZ", "RY", "RX", "GlobalPhase"])
+    err = _maxdiff(M, U) if np.all(np.isfinite(M)) else float("inf")
+    if not err <= TOL:
+        return bad(f"2q:matrix-mismatch:{via}:{fam}:class={cls}", {"err": err, "cnots": nc, "exact_class": cls}, f"error <= {TOL}")
+    isid = _phase_diff(np.eye(4), U) < 1e-12
+    return ok(outcome=[via, nc, cls, int(round(-math.log10(max(err, 1e-17))))], nontrivial=not isid)
+
+
 def check_2q(spec):
     import pennylane as qp
     from pennylane.wires import Wires
     from mc import x_synth as XS
 
+    if spec.get("via", "fn").startswith("jit"):
+        return check_2q_jit(spec)
     np = _np()
     U, cls = XS.build_2q(spec)
     wires = spec.get("wires", [0, 1])
@@ -390,6 +439,18 @@ def run(ctx):
         ctx.enumerate(s2, fn="check", axis="2q")
     if only in (None, "nq"):
         ctx.enumerate(sn, fn="check", axis="nq", chunk=4)
+    if only in (None, "2q-jit"):
+        # the same two-qubit inputs with the synthesis traced by jax.jit (spawned workers: jax must not be forked)
+        sj = []
+        for s in s2:
+            if s.get("via", "fn") != "fn" or s.get("wires") or s.get("eps") is not None:
+                continue
+            if tier == "quick" and s["core"] != ["I"] and (s["L"], s["R"]) not in ((None, None), (DRESS_QUICK[-1][0], DRESS_QUICK[-1][1])):
+                continue
+            sj.append(dict(s, via="jit-fn"))
+            if s["core"] == ["I"] or s["L"] is None:
+                sj.append(dict(s, via="jit-op"))
+        ctx.enumerate(sj, fn="check", axis="2q-jit", chunk=40, start="spawn")
     from mc.x_alphabet import ANG
 
     ctx.coverage["alphabet"] = {
